@@ -96,9 +96,10 @@ def descriptor(kind, L, zs, pos, ext=None, channel=None, isovalue=None):
         dists = np.linalg.norm(pos - c, axis=1)
         return stockholder_weight_descriptor(sht, zs, pos, ez, ep, origin=c, bounds=(max(0.05, np.min(dists) / 2), np.max(dists) + 10.0), **kw)
     if kind == "stockholder-default":
-        # every optional argument left at its default (origin = centroid of the interior atoms, bounds (0.1, 20))
+        # origin left at its default (centroid of the interior atoms); the upper search bound is kept inside the model
+        # cluster (at the default 20 A every tabulated density is zero and the compiled single-point weight is 0/0)
         ez, ep = ext
-        return stockholder_weight_descriptor(sht, zs, pos, ez, ep, **kw)
+        return stockholder_weight_descriptor(sht, zs, pos, ez, ep, bounds=(0.1, 9.0), **kw)
     if kind == "promolecule-origin":
         # explicit origin away from the centroid (must follow the molecule)
         if isovalue is not None:
